@@ -151,6 +151,7 @@ func (h *Handler) handleRequest(host *packet.Host, p packet.DHCP4, options packe
 		if lease.State == StateFree || // no open offer and no lease for this client: nothing to acknowledge
 			!bytes.Equal(lease.Addr.MAC, p.CHAddr()) || // invalid hardware
 			(lease.State == StateDiscover && (!bytes.Equal(lease.XID, p.XId()) || lease.IPOffer != reqIP)) || // invalid discover request
+			(lease.State == StateDiscover && !h.available(lease, reqIP)) || // meanwhile acknowledged to another client or in use
 			(lease.State == StateAllocated && lease.Addr.IP != reqIP) { // invalid request - iphone send duplicate select packets - let it pass
 			Logger.Msg("request NACK - select invalid parameters").ByteArray("xid", p.XId()).ByteArray("lxid", lease.XID).IP("leaseIP", lease.Addr.IP).Write()
 			return nakPacket(p, subnet.DHCPServer.AsSlice(), clientID)
